@@ -248,6 +248,18 @@ pub fn c11(ctx: &mut Ctx) {
             ));
         }
         work.push(("surplus-step".into(), vec![Fault::Append { path: "config.fri.fri_step_sizes".into(), value: Some("0x3".into()) }]));
+        // a non-zero first FRI step "folded into" the size relations: every size that sits above
+        // the first committed layer raised by k, the layer heights kept
+        for k in 1..=4u64 {
+            let g = |p: &str| image::get(&wrapped, &image::parse_path(p)).and_then(image::felt_of);
+            let mut fl = vec![Fault::Set { path: "config.fri.fri_step_sizes[0]".into(), value: image::felt_hex(&Felt::from(k)) }];
+            for p in ["config.fri.log_input_size", "config.log_trace_domain_size", "config.traces.original.vector.height", "config.traces.interaction.vector.height", "config.composition.vector.height"] {
+                if let Some(v) = g(p) {
+                    fl.push(Fault::Set { path: p.into(), value: image::felt_hex(&(v + Felt::from(k))) });
+                }
+            }
+            work.push(("first-step-folded-into-sizes".into(), fl));
+        }
         // a zero step inside, otherwise consistent (1 column, repeated height)
         {
             let n_inner = cfg["fri"]["inner_layers"].as_array().map(|a| a.len()).unwrap_or(0);
